@@ -99,7 +99,13 @@ def run(ctx):
            ("QLabel", "locale.fooBar: srcS.text"), ("QLabel", "locale.fooBar: 1"), ("QLabel", "cursor.shape: srcI.value"), ("QPushButton", "icon.name: srcS.text"), ("QPushButton", "icon.name: \"go\""),
            ("QPushButton", "icon { normalOff: srcS.text }"), ("QLabel", "minimumSize.width: srcI.value"), ("QLabel", "geometry.width: srcI.value + 1"),
            ("QTableView", "horizontalHeader.font.bold: srcB.checked"), ("QTableView", "horizontalHeader.palette.active.window.color: srcS.text"),
-           ("QTableView", "horizontalHeader.palette.window: \"red\"")]
+           ("QTableView", "horizontalHeader.palette.window: \"red\""),
+           # a value that is a constant although its code READS a property (the read is discarded): whatever generate mode says about that read (a property without
+           # notify signal cannot be observed), the other modes say too
+           ("QLabel", "text: { srcS.width; \"x\" }"), ("QLabel", "text: { srcS.text; \"x\" }"), ("QLabel", "enabled: { srcS.width; true }"),
+           ("QLabel", "text: { let w = srcS.width; return \"x\" }"), ("QLabel", "text: { let w = srcS.text; return \"x\" }"), ("QLabel", "font.bold: { srcS.height; true }"),
+           ("QLabel", "text: { srcS.width; return srcS.text }"), ("QLabel", "text: { srcI.maximum; \"x\" }"), ("QLabel", "QLayout.rowStretch: { srcS.width; 1 }"),
+           ("QPushButton", "onClicked: { srcS.width; srcS.clear() }")]
     for cls, b in one:
         singles.append("import qmluic.QtWidgets\nQWidget {\n    QLineEdit { id: srcS }\n    QCheckBox { id: srcB }\n    QSpinBox { id: srcI }\n    QVBoxLayout {\n        %s {\n            %s\n        }\n    }\n}\n" % (cls, b))
     for b in ("text: srcS.text", "separator: srcB.checked", "separator: true", "checkable: srcB.checked", "onTriggered: srcS.clear()"):
